@@ -17,6 +17,18 @@ check("C12","bounded-exhaustive: every schema of the extended alphabet (formats,
 check("C19","bounded-exhaustive: every schema of the extended alphabet with <=2/<=3 keyword instances x every marker-carrying value; every *SchemaError reachable from the result of each standalone mode and of ValidateRequest/ValidateResponse (reason-only customiser, details disabled, single and multi-error) is searched for the markers in Reason and in Error()",
  "marker taint search; object keys are not values; evidence lists the reason construction sites reached",
  "bounded exhaustive enumeration on the real code with an invariant (taint search) on every reachable error","3 C19")
+check("C02","bounded-exhaustive over file forests: kind(10) x position x graph shape(24: direct, chains, diamond, self/mutual cycles, file-local refs, same name in two files, dangling, wrong kind, pure loops) x layout(3) x spelling(4) x entry point(5); the loaded document expanded through its references to depth 3 must equal the raw JSON expanded by an independent resolver; bad references must fail",
+ "trusts the reference resolver mc/ref/refs.go (RFC 3986 + JSON pointer) and the in-memory reader; quick tier takes the full placement product at two representative positions per kind and the default placement at every position; thorough takes the full product under both map orders",
+ "bounded exhaustive enumeration of reference graphs on the real loader against a reference resolver","3 C02")
+check("C11","bounded-exhaustive monitor: an external reference in 12 spellings x whole-file/fragment planted at each of the 121 reference positions x 5 entry points x switch on/off, with reader-answer deviations (error, garbage); every URL handed to ReadFromURIFunc must be the root (switch off) or derived from a reference in an already returned document (switch on)",
+ "in-memory reader only; locations compared modulo inherited scheme",
+ "bounded exhaustive enumeration with a monitor on every environment read; deviation-bounded reader answers","3 C11")
+check("C16","bounded-exhaustive over the C02 forests that load: InternalizeRefs + marshal must leave only internal references, reload with external references disallowed, keep the Validate verdict and keep every reference's content (reference-erased expansions to depth 4 equal)",
+ "relational oracle between the original and the internalised document; cuts of cyclic expansions match anything",
+ "bounded exhaustive enumeration of multi-file documents with a relational (before/after) oracle","3 C16")
+check("C20","bounded-exhaustive single mutations of the skeleton (every node x 61 replacement values incl. 49 adversarial $ref forms, deletion, every byte prefix, structural byte flips, YAML renderings and YAML-only token documents) and every C02 forest, x entry point x switch: Load, Validate, json/yaml Marshal and InternalizeRefs must return within the step budget",
+ "termination by instrumented step budget; worker deaths attributed to the executing vector; quick tier thins the $ref adversaries at non-reference nodes to a fixed 1-in-8 slice",
+ "bounded exhaustive mutation enumeration on the real code with a returns-normally invariant (panic, step budget, worker death)","3 C20")
 NA_REASON="check not built yet (work in progress; see DESIGN.md section 5)"
 m={"version":1,"setup_cmd":"bin/setup",
  "hooks":{"guard":"verif","enable":"go build -tags verif -overlay <generated> (bin/check does it on every invocation, regenerating the overlay from /repo's working tree)","baseline_off_cmd":"bin/baseline","source_commits":[],"add_only":True},
